@@ -155,7 +155,10 @@ def build(ctx, incdir):
         src = H + incv + "\n" + body + "Vars | 7\n" + tpl.replace("U", nm) + "\n" + post
         ln, c = locate(src, nm, len((H + incv + "\n" + body).split("\n")))
         cases.append(("undefined-declared-in-include-" + slot, src, (nm, ln, c)))
-    for hdr, slot in (("target g (shots=uu)\n", "targetopt"), ("type t (k=[1, uu])\n", "typeopt"), ("target g (a=1, b=2*uu)\ntype t (c=1)\n", "targetopt2")):
+    for hdr, slot in (("target g (shots=uu)\n", "targetopt"), ("type t (k=[1, uu])\n", "typeopt"), ("target g (a=1, b=2*uu)\ntype t (c=1)\n", "targetopt2"),
+                      # positional values in a metadata option list (the values are ignored with a warning - the names in them are not)
+                      ("target g (uu)\n", "targetpos"), ("target g (uu, shots=10)\n", "targetpos2"), ("type t (2*uu, k=1)\n", "typepos"), ("target g (a=1)\ntype t (uu)\n", "typepos2"),
+                      ("target g (shots=10)\ntype tdm (1, sqrt(uu), copies=1)\n", "typepos3")):
         src = "name a\nversion 1.0\n" + hdr + "G | 0\n"
         ln, c = locate(src, "uu")
         cases.append(("undefined-" + slot, src, ("uu", ln, c)))
@@ -237,7 +240,7 @@ def run(ctx):
         elif r is not None:
             V.add(r[0], {"tag": c[0], "src": c[1], "expect": c[2], "needs_includes": "include" in c[0]}, r[1])
     cov = {"evaluations": len(cases) + ng, "distinct_nontrivial": len(set(c[1] for c in cases)) + ng, "grammar_driven_non_integer_mode_statements": ng, "grammar_driven_max_tokens": L,
-           "rule": "valid prefix x valid suffix x exactly one fault: undefined name in %d slots (x %d names) and 3 metadata-option slots; %d reserved names x %d declaration forms; %d non-integer mode forms x 2 statement shapes; "
+           "rule": "valid prefix x valid suffix x exactly one fault: undefined name in %d slots (x %d names) and 8 metadata-option slots (keyword and positional values); %d reserved names x %d declaration forms; %d non-integer mode forms x 2 statement shapes; "
                    "%d complex expressions x %d int/float slots; wrong-type loop values x 3 bracket styles; 10 mismatched include calls. non-trivial = every case (each has exactly one fault); distinct by source text"
                    % (len(UND), len(NAMES), len(RESERVED), len(DECLS), len(MODES), len(CPLX), len(CSLOTS)),
            "samples": [c[1] for c in common.sample(cases, 5)], "exhaustive": True, "by_fault_class": dict(fam), "include_family_sanity": include_sanity}
